@@ -35,6 +35,11 @@ pub enum SK {
     Q1Big,
     /// subscribe with an over-long filter: must fail locally (encoder)
     SubBig,
+    /// QoS 1 with a 65536-byte topic: must fail locally and leave no bytes
+    Q1LongTopic,
+    /// streamed publish: qos 0/1, declared size, chunk plan (0 = exact in one chunk, 1 = exact in two,
+    /// 2 = second chunk one byte too long, 3 = first half then the stream handle is dropped)
+    Stream { qos: u8, size: u8, plan: u8 },
 }
 
 /// A parked QoS 2 receipt (the library's `PublishReceived` type is not nameable from outside):
@@ -56,9 +61,48 @@ pub struct SenderSt {
     pub rel_started: bool,
     pub rel_result: Option<String>,
     pub rel_handle: Option<JoinHandle<()>>,
+    /// streaming senders: number of chunks the explorer has released / waker of the waiting task
+    pub chunks_allowed: usize,
+    pub chunk_waker: Option<std::task::Waker>,
+    pub chunks_wanted: usize,
+    /// bytes of the chunks whose send() returned Ok
+    pub accepted: Vec<u8>,
 }
 
 pub type App = Rc<RefCell<Vec<SenderSt>>>;
+
+/// waits until the explorer has released chunk number `i` of sender `j`
+struct ChunkGate {
+    app: App,
+    j: usize,
+    i: usize,
+}
+impl Future for ChunkGate {
+    type Output = ();
+    fn poll(self: Pin<&mut Self>, cx: &mut std::task::Context<'_>) -> std::task::Poll<()> {
+        let mut a = self.app.borrow_mut();
+        let s = &mut a[self.j];
+        s.chunks_wanted = s.chunks_wanted.max(self.i + 1);
+        if s.chunks_allowed > self.i {
+            std::task::Poll::Ready(())
+        } else {
+            s.chunk_waker = Some(cx.waker().clone());
+            std::task::Poll::Pending
+        }
+    }
+}
+
+/// chunk plan -> chunks (bytes are 0xD0 + sender index, never a valid short packet header sequence)
+pub fn plan_chunks(j: usize, size: u8, plan: u8) -> (Vec<Vec<u8>>, bool) {
+    let b = 0xD0 + j as u8;
+    let size = size as usize;
+    match plan {
+        0 => (vec![vec![b; size]], false),
+        1 => (vec![vec![b; size / 2], vec![b; size - size / 2]], false),
+        2 => (vec![vec![b; size / 2], vec![b; size - size / 2 + 1]], false),
+        _ => (vec![vec![b; size / 2]], true),
+    }
+}
 
 fn tag(j: usize) -> u8 {
     b'0' + j as u8
@@ -75,6 +119,71 @@ async fn run_sender_v5(sink: ntex_mqtt::v5::MqttSink, kind: SK, j: usize, app: A
                 Ok(()) => "ok".into(),
                 Err(e) => format!("err:{e:?}"),
             });
+        }
+        SK::Q1LongTopic => {
+            let r = sink.publish(bs(&"L".repeat(65_536))).send_at_least_once(by(&[tag(j)])).await;
+            push(match &r {
+                Ok(a) => ackstr(a),
+                Err(e) => format!("err:{e:?}"),
+            });
+        }
+        SK::Stream { qos, size, plan } => {
+            let (chunks, drop_after) = plan_chunks(j, size, plan);
+            let topic = bs(&format!("s{j}"));
+            if qos == 0 {
+                match sink.publish(topic).stream_at_most_once(u32::from(size)) {
+                    Err(e) => push(format!("err:{e:?}")),
+                    Ok(pl) => {
+                        push("ok".into());
+                        for (i, c) in chunks.iter().enumerate() {
+                            ChunkGate { app: app.clone(), j, i }.await;
+                            match pl.send(by(c)).await {
+                                Ok(()) => {
+                                    app.borrow_mut()[j].accepted.extend_from_slice(c);
+                                    push(format!("chunk-ok:{}", c.len()));
+                                }
+                                Err(e) => {
+                                    push(format!("chunk-err:{e:?}"));
+                                    break;
+                                }
+                            }
+                        }
+                        if drop_after {
+                            ChunkGate { app: app.clone(), j, i: chunks.len() }.await;
+                        }
+                        drop(pl);
+                    }
+                }
+            } else {
+                let (fut, pl) = sink.publish(topic).stream_at_least_once(u32::from(size));
+                let app2 = app.clone();
+                let chunks2 = chunks.clone();
+                let feeder = ntex_rt::spawn(async move {
+                    for (i, c) in chunks2.iter().enumerate() {
+                        ChunkGate { app: app2.clone(), j, i }.await;
+                        match pl.send(by(c)).await {
+                            Ok(()) => {
+                                app2.borrow_mut()[j].accepted.extend_from_slice(c);
+                                app2.borrow_mut()[j].results.push(format!("chunk-ok:{}", c.len()));
+                            }
+                            Err(e) => {
+                                app2.borrow_mut()[j].results.push(format!("chunk-err:{e:?}"));
+                                break;
+                            }
+                        }
+                    }
+                    if drop_after {
+                        ChunkGate { app: app2.clone(), j, i: chunks2.len() }.await;
+                    }
+                    drop(pl);
+                });
+                let r = fut.await;
+                push(match &r {
+                    Ok(a) => ackstr(a),
+                    Err(e) => format!("err:{e:?}"),
+                });
+                let _ = feeder;
+            }
         }
         SK::Q1Big => {
             let r = sink.publish(bs("t")).send_at_least_once(by(&vec![tag(j); 300])).await;
@@ -176,6 +285,71 @@ async fn run_sender_v3(sink: ntex_mqtt::v3::MqttSink, kind: SK, j: usize, app: A
                 Ok(()) => "ok".into(),
                 Err(e) => format!("err:{e:?}"),
             });
+        }
+        SK::Q1LongTopic => {
+            let r = sink.publish(bs(&"L".repeat(65_536))).send_at_least_once(by(&[tag(j)])).await;
+            push(match &r {
+                Ok(()) => "ok".into(),
+                Err(e) => format!("err:{e:?}"),
+            });
+        }
+        SK::Stream { qos, size, plan } => {
+            let (chunks, drop_after) = plan_chunks(j, size, plan);
+            let topic = bs(&format!("s{j}"));
+            if qos == 0 {
+                match sink.publish(topic).stream_at_most_once(u32::from(size)) {
+                    Err(e) => push(format!("err:{e:?}")),
+                    Ok(pl) => {
+                        push("ok".into());
+                        for (i, c) in chunks.iter().enumerate() {
+                            ChunkGate { app: app.clone(), j, i }.await;
+                            match pl.send(by(c)).await {
+                                Ok(()) => {
+                                    app.borrow_mut()[j].accepted.extend_from_slice(c);
+                                    push(format!("chunk-ok:{}", c.len()));
+                                }
+                                Err(e) => {
+                                    push(format!("chunk-err:{e:?}"));
+                                    break;
+                                }
+                            }
+                        }
+                        if drop_after {
+                            ChunkGate { app: app.clone(), j, i: chunks.len() }.await;
+                        }
+                        drop(pl);
+                    }
+                }
+            } else {
+                let (fut, pl) = sink.publish(topic).stream_at_least_once(u32::from(size));
+                let app2 = app.clone();
+                let chunks2 = chunks.clone();
+                let feeder = ntex_rt::spawn(async move {
+                    for (i, c) in chunks2.iter().enumerate() {
+                        ChunkGate { app: app2.clone(), j, i }.await;
+                        match pl.send(by(c)).await {
+                            Ok(()) => {
+                                app2.borrow_mut()[j].accepted.extend_from_slice(c);
+                                app2.borrow_mut()[j].results.push(format!("chunk-ok:{}", c.len()));
+                            }
+                            Err(e) => {
+                                app2.borrow_mut()[j].results.push(format!("chunk-err:{e:?}"));
+                                break;
+                            }
+                        }
+                    }
+                    if drop_after {
+                        ChunkGate { app: app2.clone(), j, i: chunks2.len() }.await;
+                    }
+                    drop(pl);
+                });
+                let r = fut.await;
+                push(match &r {
+                    Ok(()) => "ok".into(),
+                    Err(e) => format!("err:{e:?}"),
+                });
+                let _ = feeder;
+            }
         }
         SK::Q1Big => {
             let r = sink.publish(bs("t")).send_at_least_once(by(&vec![tag(j); 300])).await;
@@ -305,6 +479,10 @@ pub struct OutCfg {
     pub prologue: u8,
     /// peer's Maximum Packet Size (0 = none): v5 CONNECT / CONNACK property, v3 handshake option
     pub peer_max_packet: u32,
+    /// number of inbound request packets the explorer may inject (C08)
+    pub inbound: u8,
+    /// the application may close the sink at any point (C08)
+    pub may_close: bool,
 }
 
 pub const J_WINDOW: u32 = 1;
@@ -326,6 +504,12 @@ pub enum Ev {
     DropReceipt(u8),
     /// hostile peer: write ack of type (4 PUBACK,5 PUBREC,7 PUBCOMP,9 SUBACK,11 UNSUBACK) with id
     Peer(u8, u16),
+    /// release the next payload chunk of streaming sender j
+    Chunk(u8),
+    /// inbound PINGREQ (server) / QoS 1 PUBLISH with an immediately completing handler: the dispatcher writes a response
+    Inbound(u8),
+    /// application closes the sink
+    Close,
 }
 
 /// A packet the endpoint wrote that still expects something from the correct peer.
@@ -376,6 +560,8 @@ pub struct Out {
     pub unjudged: Option<String>,
     /// correct acks the peer wrote: (sender, type, id)
     pub good_acks: Vec<(Option<usize>, u8, u16)>,
+    pub inbound_sent: u8,
+    pub closed_by_app: bool,
 }
 
 impl Out {
@@ -648,6 +834,111 @@ impl Out {
         Ok(())
     }
 
+    /// C08: everything written to the wire is a sequence of complete well-formed packets.
+    fn judge_wire(&self) -> Result<(), Violation> {
+        let a = self.app.borrow();
+        let ended = !self.conn.log.stops().is_empty() || self.conn.done() || self.sink().is_some_and(|s| !s.is_open());
+        // 1. the byte stream parses; a trailing partial packet is only allowed when the transport was aborted
+        //    and only as the truncated streamed PUBLISH
+        let tail = self.conn.unparsed();
+        if !tail.is_empty() {
+            let is_stream_pub = tail[0] & 0xf0 == 0x30 && tail.windows(2).any(|w| w[0] == b's' && w[1].is_ascii_digit());
+            if !ended || !is_stream_pub {
+                return Err(Violation::new(
+                    "partial-packet",
+                    self.rwit(if ended { "after end" } else { "connection alive" }),
+                    format!("wire output ends with an incomplete packet {} (connection ended: {ended}): {}", rf::hex(tail), self.detail()),
+                ));
+            }
+        }
+        // 2. per operation: Ok <-> exactly one packet, Err <-> none
+        for (j, s) in a.iter().enumerate() {
+            if !s.started {
+                continue;
+            }
+            let kind = self.cfg.senders[j];
+            let on_wire = self
+                .conn
+                .out
+                .iter()
+                .filter(|(_, p)| match (kind, p) {
+                    (SK::Stream { .. }, Pkt::Publish { topic, .. }) => *topic == format!("s{j}"),
+                    (SK::Sub | SK::SubBig, Pkt::Subscribe { filters, .. }) => filters.first().is_some_and(|f| f.0 == format!("f{j}") || f.0.len() > 1000),
+                    (SK::Unsub, Pkt::Unsubscribe { filters, .. }) => filters.first().is_some_and(|f| *f == format!("f{j}")),
+                    (SK::Stream { .. } | SK::Sub | SK::SubBig | SK::Unsub, _) => false,
+                    (_, Pkt::Publish { payload, topic, .. }) => (payload.first() == Some(&(b'0' + j as u8)) && topic == "t") || topic.len() > 1000,
+                    _ => false,
+                })
+                .count();
+            // a truncated streamed publish at the tail also counts as "written"
+            let in_tail = matches!(kind, SK::Stream { .. }) && !tail.is_empty() && tail.windows(2).any(|w| w[0] == b's' && w[1] == b'0' + j as u8);
+            let first_ok = s.results.iter().filter(|r| r.starts_with("ok")).count();
+            let first_err = s.results.iter().any(|r| r.starts_with("err"));
+            let written = on_wire + usize::from(in_tail);
+            match kind {
+                SK::Ready => {}
+                SK::Q0 | SK::Stream { qos: 0, .. } => {
+                    // synchronous sends: result known
+                    if first_ok != written && !(first_ok > written && ended) {
+                        return Err(Violation::new(
+                            "result-vs-wire",
+                            self.rwit(&format!("{kind:?}").split([' ', '{', '(']).next().unwrap_or("").to_string()),
+                            format!("sender {j} ({kind:?}) reported {first_ok} successful sends but {written} of its packets are on the wire: {}", self.detail()),
+                        ));
+                    }
+                    if first_err && first_ok == 0 && written > 0 {
+                        return Err(Violation::new("failed-send-left-bytes", self.rwit("send"), format!("sender {j} ({kind:?}) returned an error but its packet is on the wire: {}", self.detail())));
+                    }
+                }
+                _ => {
+                    // awaiting sends: an error before anything was written must leave nothing; a send that
+                    // was written may still fail later (disconnect) - then exactly one packet
+                    if written > 1 + usize::from(matches!(kind, SK::Q1Loop(_))) {
+                        return Err(Violation::new("duplicate-packet", self.rwit("send"), format!("sender {j} ({kind:?}) has {written} packets on the wire: {}", self.detail())));
+                    }
+                    let local_err = s.results.iter().any(|r| r.starts_with("err:Encode") || r.starts_with("err:PacketIdInUse"));
+                    if local_err && written > 0 && !matches!(kind, SK::Q1Loop(_)) {
+                        return Err(Violation::new(
+                            "failed-send-left-bytes",
+                            self.rwit(&format!("{}", s.results.iter().find(|r| r.starts_with("err")).map(|r| r.split('(').next().unwrap_or("")).unwrap_or(""))),
+                            format!("sender {j} ({kind:?}) failed locally ({:?}) but its packet is on the wire: {}", s.results, self.detail()),
+                        ));
+                    }
+                }
+            }
+            // 3. streamed payload = concatenation of accepted chunks, declared size honoured
+            if let SK::Stream { size, .. } = kind {
+                for (_, p) in &self.conn.out {
+                    if let Pkt::Publish { topic, payload, .. } = p {
+                        if *topic == format!("s{j}") {
+                            if payload.len() != size as usize {
+                                return Err(Violation::new("stream-size", self.rwit("streamed publish"), format!("streamed PUBLISH of sender {j} declares {size} bytes but carries {}: {}", payload.len(), self.detail())));
+                            }
+                            if *payload != s.accepted {
+                                return Err(Violation::new(
+                                    "stream-content",
+                                    self.rwit("streamed publish"),
+                                    format!("payload on the wire {} differs from the accepted chunks {} of sender {j} (another packet interleaved?): {}", rf::hex(payload), rf::hex(&s.accepted), self.detail()),
+                                ));
+                            }
+                        }
+                    }
+                }
+                // a complete payload on the wire that is shorter than declared cannot parse; an incomplete stream
+                // must have aborted the transport
+                let complete = self.conn.out.iter().any(|(_, p)| matches!(p, Pkt::Publish { topic, .. } if *topic == format!("s{j}")));
+                let started_stream = s.results.first().is_some_and(|r| r.starts_with("ok")) || in_tail;
+                if started_stream && !complete && !in_tail && !ended && s.done {
+                    return Err(Violation::new("stream-lost", self.rwit("streamed publish"), format!("streamed PUBLISH of sender {j} vanished: {}", self.detail())));
+                }
+                if in_tail && !ended {
+                    return Err(Violation::new("short-payload-continued", self.rwit("streamed publish"), format!("stream of sender {j} ended short but the connection continues: {}", self.detail())));
+                }
+            }
+        }
+        Ok(())
+    }
+
     /// C14: concurrent QoS 2 sends complete independently.
     fn judge_qos2(&self) -> Result<(), Violation> {
         let a = self.app.borrow();
@@ -809,6 +1100,8 @@ impl Scenario for Out {
                 ok_at_bad: Vec::new(),
                 unjudged: None,
                 good_acks: Vec::new(),
+                inbound_sent: 0,
+                closed_by_app: false,
                 cfg,
             }
         })
@@ -856,6 +1149,18 @@ impl Scenario for Out {
                 v.push(Ev::Release(j as u8));
                 v.push(Ev::DropReceipt(j as u8));
             }
+            if a[j].chunks_wanted > a[j].chunks_allowed {
+                v.push(Ev::Chunk(j as u8));
+            }
+        }
+        if self.inbound_sent < self.cfg.inbound {
+            if self.cfg.ep.role == Role::Server {
+                v.push(Ev::Inbound(0));
+            }
+            v.push(Ev::Inbound(1));
+        }
+        if self.cfg.may_close && !self.closed_by_app {
+            v.push(Ev::Close);
         }
         if self.cancels_left > 0 {
             // the statement speaks about dropped *waiting* futures: only tasks whose current
@@ -934,6 +1239,31 @@ impl Scenario for Out {
                 let rec = self.app.borrow_mut()[j as usize].receipt.take();
                 drop(rec);
                 self.app.borrow_mut()[j as usize].rel_result = Some("dropped".into());
+            }
+            Ev::Chunk(j) => {
+                let w = {
+                    let mut a = self.app.borrow_mut();
+                    a[j as usize].chunks_allowed += 1;
+                    a[j as usize].chunk_waker.take()
+                };
+                if let Some(w) = w {
+                    w.wake();
+                }
+            }
+            Ev::Inbound(k) => {
+                self.inbound_sent += 1;
+                if k == 0 {
+                    self.conn.send(&Pkt::PingReq);
+                } else {
+                    let id = 900 + u16::from(self.inbound_sent);
+                    self.conn.send(&rf::publish(1, id, "in", &[0xEE]));
+                }
+            }
+            Ev::Close => {
+                self.closed_by_app = true;
+                if let Some(s) = self.sink() {
+                    s.close();
+                }
             }
             Ev::Peer(t, id) => {
                 self.peer_sent += 1;
@@ -1032,6 +1362,9 @@ impl Scenario for Out {
         }
         if self.cfg.judge & J_QOS2 != 0 {
             self.judge_qos2()?;
+        }
+        if self.cfg.judge & J_WIRE != 0 {
+            self.judge_wire()?;
         }
         let a = self.app.borrow();
         let obs = format!(
